@@ -63,22 +63,75 @@ def random_query(rng, gd, max_size=2, with_conditions=False, allow_empty_x=False
     return {"X": sorted(X), "Y": sorted(Y), "Z": sorted(Z), "cls": cls}
 
 
-CALL_FORMS = ("outcomes", "identify", "from_expression", "from_parts", "from_str", "single")
+CALL_FORMS = ("outcomes", "identify", "from_expression", "from_parts", "from_str", "single",
+              "outcomes-seq", "outcomes-iter", "from_parts-iter", "raw-graph")
 
 
-def call_id(g, q, form):
+def raw_graph(g):
+    """The same graph through the public dataclass constructor: the bidirected member holds only the nodes that have a
+    bidirected edge (and the directed member only its own), the way ``NxMixedGraph(directed=nx.DiGraph(...))`` does."""
+    import networkx as nx
+    from y0.graph import NxMixedGraph
+
+    d = nx.DiGraph()
+    d.add_nodes_from(g.directed.nodes())
+    d.add_edges_from(g.directed.edges())
+    return NxMixedGraph(directed=d, undirected=nx.Graph(list(g.undirected.edges())))
+
+
+def _held_query(ident, X, Y, Z, form, prop):
+    """Driver-side assertion: the Identification a public constructor built holds exactly the query it was given."""
+    from .. import kernel
+
+    kernel.count("callform:" + form)
+    got = (set(ident.treatments), set(ident.outcomes), set(ident.conditions))
+    if got != (X, Y, Z) and prop:
+        kernel.violation(prop, "query-construction",
+                         f"call form {form}: asked for X={sorted(map(str, X))} Y={sorted(map(str, Y))} "
+                         f"Z={sorted(map(str, Z))}, the Identification holds X={sorted(map(str, got[0]))} "
+                         f"Y={sorted(map(str, got[1]))} Z={sorted(map(str, got[2]))}")
+
+
+def call_id(g, q, form, prop=None):
     """Drive ID / IDC through one of the public call forms.  -> estimand or None (refusal); other exceptions propagate.
-    q: dict(X, Y, Z) of names."""
+    q: dict(X, Y, Z) of names.  Forms outside the annotated signatures (one-shot iterables; the annotations say
+    ``Variable | set[Variable]`` while the normaliser takes any iterable) and raw dataclass graphs are driven too: their
+    *answers* are judged like any other, an exception from them is only counted."""
     from y0.algorithm.identify import Identification, Query, idc, identify, identify_outcomes
     from y0.algorithm.identify.utils import Unidentifiable
     from y0.dsl import P, Variable
 
+    from .. import kernel
+
     X = {Variable(x) for x in q["X"]}
     Y = {Variable(y) for y in q["Y"]}
     Z = {Variable(z) for z in q.get("Z") or []}
+    kernel.LOG.case["intended"] = {"X": sorted(q["X"]), "Y": sorted(q["Y"]), "Z": sorted(q.get("Z") or [])}
     if form == "outcomes":
+        kernel.count("callform:" + form)
         return identify_outcomes(g, X, Y, Z) if Z else identify_outcomes(g, X, Y)
+    if form == "raw-graph":
+        kernel.count("callform:" + form)
+        try:
+            return identify_outcomes(raw_graph(g), X, Y, Z) if Z else identify_outcomes(raw_graph(g), X, Y)
+        except Exception:  # noqa: BLE001
+            kernel.count("callform:raw-graph-raised-not-judged")
+            return None
+    if form in ("outcomes-seq", "outcomes-iter"):
+        kernel.count("callform:" + form)
+        k = sum(map(ord, "".join(sorted(q["X"])) + "".join(sorted(q["Y"]))))
+        if form == "outcomes-seq":
+            mk = [lambda s: sorted(s, key=str), lambda s: tuple(sorted(s, key=str, reverse=True)), frozenset][k % 3]
+        else:
+            mk = [lambda s: (v for v in sorted(s, key=str)), lambda s: iter(sorted(s, key=str)),
+                  lambda s: map(lambda v: v, sorted(s, key=str))][k % 3]
+        try:
+            return identify_outcomes(g, mk(X), mk(Y), mk(Z)) if Z else identify_outcomes(g, mk(X), mk(Y))
+        except TypeError:
+            kernel.count("callform:unannotated-form-rejected-not-judged")
+            return None
     if form == "single" and len(X) == 1 and len(Y) == 1 and len(Z) <= 1:
+        kernel.count("callform:" + form)
         args = (next(iter(X)), next(iter(Y))) + ((next(iter(Z)),) if Z else ())
         return identify_outcomes(g, *args)
     if form == "from_str":
@@ -86,13 +139,22 @@ def call_id(g, q, form):
         ident = Identification(query=query, graph=g)
     elif form == "from_parts":
         ident = Identification.from_parts(outcomes=Y, treatments=X, graph=g, conditions=Z or None)
+    elif form == "from_parts-iter":
+        try:
+            ident = Identification.from_parts(outcomes=iter(sorted(Y, key=str)), treatments=(x for x in sorted(X, key=str)),
+                                              graph=g, conditions=iter(sorted(Z, key=str)) if Z else None)
+        except TypeError:
+            kernel.count("callform:unannotated-form-rejected-not-judged")
+            return None
     elif form == "from_expression" and X:
         ys = sorted(Y, key=str)
         zs = sorted(Z, key=str)
         expr = P[sorted(X, key=str)](ys[0] if len(ys) == 1 and not zs else (ys if not zs else _dist(ys, zs)))
         ident = Identification.from_expression(query=expr, graph=g)
     else:
+        form = "identify"
         ident = Identification(query=Query(outcomes=Y, treatments=X, conditions=Z), graph=g)
+    _held_query(ident, X, Y, Z, form, prop)
     try:
         return idc(ident) if Z else identify(ident)
     except Unidentifiable:
